@@ -361,7 +361,7 @@ def parse_reply(o):
     return out
 
 
-def walk(env, r, quick, want, keep, bulk_quick=60, scripts_bulk=2):
+def walk(env, r, quick, want, keep, bulk_quick=300, scripts_bulk=2):
     """Builds the groups ([font line, shape lines ...]) and their meta data.
     keep(c, S, text) -> bool: which (font, text) combinations the caller's oracles can judge at all."""
     groups, meta = [], []
@@ -509,7 +509,7 @@ def judge_conservation(env, tag, name, text, out, cmap):
     return None
 
 
-def search(ctx, shim, env, r, want, keep, judges, rule, bulk_quick=60):
+def search(ctx, shim, env, r, want, keep, judges, rule, bulk_quick=300):
     """judges: [fn(env, tag, name, text, out, cmap) -> None | (oracle, deviation)]"""
     groups, meta, st = walk(env, r, ctx.quick, want, keep, bulk_quick=bulk_quick)
     outs = vlib.run_groups(shim, groups, timeout=1200)
@@ -677,3 +677,49 @@ def replay_promoted(shim, rp, judges, adv=None):
             return 1
     print("no deviation")
     return 0
+
+
+# ---------------------------------------------------------------------------------------------------------------
+# correspondence requests over the lattice (C09's `norm runv` protocol: the hook runs _hb_ot_shape_normalize with each of
+# the five normalization preferences on a bare buffer; the Lean side is Norm.normalize)
+
+_KEYD = None
+
+
+def key_decomposables():
+    global _KEYD
+    if _KEYD is None:
+        ks = [c for c in sorted(RD()) if not (0xF900 <= c <= 0xFAFF or 0x2F800 <= c <= 0x2FA1F)
+              and (own_script(c) or dec1(c)[1] == 0 or gc(c) == "Zs" or depth(c) >= 2)]
+        _KEYD = ks + [0xAC00, 0xAC01, 0xD7A3]
+    return _KEYD
+
+
+RUN_MARKS = [0x301, 0x323, 0x5B4, 0x64E, 0x951, 0xCBC, 0x17DD, 0x1037, 0xF39]
+
+
+def lattice_run_lines(r, n, plain_share):
+    """texts of 1-4 characters — a lattice character alone, as the base of a cluster with a mark, after another
+    character — over the no-decomposition family (`plain_share` out of 3) and the key decomposable characters (all
+    multi-level ones included); the font maps a random subset of the relevant characters R(c) (the text's own characters
+    three times out of four, the others every second time), through explicit support sets or "everything but";
+    every mode 0..4, cluster levels 0 / 1, with and without an invisible glyph"""
+    import C09
+    plain = no_decomp_family()
+    keyd = key_decomposables()
+    lines = []
+    for _ in range(n):
+        k = r.below(8)
+        text = [r.choice(plain if r.below(3) < plain_share else keyd)]
+        if k >= 2: text.append(r.choice(RUN_MARKS))                   # the character is the base of a multi-character cluster
+        if k >= 4: text.insert(0, r.choice(plain))
+        if k >= 6: text.append(r.choice(plain + keyd))
+        rel = []
+        for c in text:
+            for x in relevant(c) + [0x20] + list(HYPHENS):
+                if x not in rel: rel.append(x)
+        chosen = [x for x in rel if x in text and r.chance(3, 4)] + [x for x in rel if x not in text and r.chance(1, 2)]
+        groups = C09.groups_from_set(chosen) if r.chance(5, 6) else C09.groups_all_but([x for x in rel if x not in chosen])
+        cl = list(range(len(text))) if r.chance(1, 2) else [3] * len(text)
+        lines.append(C09.run_line(r.below(5), r.below(2), r.choice([None, None, 2]), groups, text, cl, [0] * len(text)))
+    return lines
